@@ -791,7 +791,7 @@ def two_columns(ctx, quick):
 
 
 # ------------------------------------------------------------------------------------------------ run
-def run(ctx):
+def _run(ctx):
     quick = ctx.tier == 'quick'
     status, info = VD.generate_clips(ctx)
     for k, err in status.items():
@@ -857,3 +857,16 @@ def run(ctx):
                         'statistical clauses (marginals / Kendall tau reproduced within sampling error) are residue: proved core = C17_two_columns + C09; the KS / tau bands are search only',
                         'F(i | S) provenance is exact for hereditarily good edges (all of levels 1-2, every C-vine); D-/R-vine edges from level 3 on may be bad: F10']
     return compiled
+
+
+def run(ctx):
+    """the check proper, then the re-fit history oracle on the real class (always, also after a broken translation)"""
+    from .. import extra_oracles
+    try:
+        _run(ctx)
+    finally:
+        try:
+            extra_oracles.vine_history(ctx, ('likelihood', 'sample'))
+        except Exception as ex:       # the oracle itself must never hide the result of the check proper
+            ctx.obligation('oracle:extra:raised', False, 'correspondence', repr(ex))
+            ctx.violation('oracle:extra:raised:' + type(ex).__name__, 'history oracle raised ' + repr(ex), {'repro': '# see tools/vf/extra_oracles.py'})
